@@ -152,11 +152,13 @@ inductive Query
   | pqGet (id : String) | pqList
 deriving DecidableEq, Repr
 
-/-- `Store.nodeServices` up to the service scan: `(done, idx, node)`; names only (no UUID lookup) -/
+/-- `Store.nodeServices` up to the service scan: `(done, idx, node)`; names only (no UUID lookup).
+    Since /repo 8ebfe04 the branch for names shorter than `minUUIDLookupLen` reports the node extinction
+    index like every other not-found branch (it used to report 0: fixed finding). -/
 def nodeServicesHead (s : State) (name : String) : Nat × Option Node :=
   match nodeFind s name with
   | some n => (idxVal s.index (nodeKey n.name), some n)
-  | none => if name.length < 2 then (0, none) else (idxVal s.index kNodeExt, none)
+  | none => (idxVal s.index kNodeExt, none)
 
 /-- run a query: the raw index the store function returns and the canonical result -/
 def Query.run (s : State) : Query → Nat × QRes
